@@ -52,7 +52,8 @@ class Ctx:
         self.seed = seed
         self.t0 = time.time()
         self.scratch = tempfile.mkdtemp(prefix="verif-%s-" % pid)
-        atexit.register(shutil.rmtree, self.scratch, True)
+        if not os.environ.get("VERIF_KEEP"):
+            atexit.register(shutil.rmtree, self.scratch, True)
         self.spec = os.path.join(self.scratch, "spec")
         shutil.copytree(os.path.join(VERIF, "spec"), self.spec)
         self.cov = {
